@@ -1,7 +1,7 @@
 (** C18: the indexer slice never hits a modelled panic and [ws_fuel] always suffices -- for EVERY workspace AST.
     This discharges the hypothesis [oi_bad (oix w) = false] of the source-level theorems. *)
 From Coq Require Import List NArith Bool Lia Arith PeanoNat.
-From TG.Model Require Import Chars CoreAst SymbolMap SymbolWf Outline OutlineIndex OutlineSpec.
+From TG.Model Require Import Chars CoreAst SymbolMap SymbolWf Outline OutlineIndex OutlineSpec OutlineChildSpec.
 From TG.Proofs Require Import OutlineProofs SymbolMapBasics SymbolOps SymbolIds OutlineIndexProofs OutlineSourceProofs
                               OutlineVisitProofs OutlineChildProofs.
 Import ListNotations.
@@ -105,13 +105,21 @@ Proof.
 Qed.
 
 (** ---- facts about single ops ---- *)
-Definition frame (s s' : ostate) : Prop :=
-  oi_scopes s' = oi_scopes s /\ oi_trace s' = oi_trace s /\ oi_indexed s' = oi_indexed s.
+Definition vmono (s s' : ostate) : Prop :=
+  forall k i, valid_id (oi_sm s) k i = true -> valid_id (oi_sm s') k i = true.
 
-Lemma frame_refl : forall s, frame s s.
-Proof. intros s. repeat split. Qed.
-Lemma frame_trans : forall a b c, frame a b -> frame b c -> frame a c.
-Proof. intros a b c (A1 & A2 & A3) (B1 & B2 & B3). repeat split; congruence. Qed.
+(** what every step of the slice guarantees *)
+Definition stepok (s s' : ostate) : Prop :=
+  tinv s' /\ oi_scopes s' = oi_scopes s /\ oi_trace s' = oi_trace s /\ oi_indexed s' = oi_indexed s /\ vmono s s'.
+
+Lemma stepok_refl : forall s, tinv s -> stepok s s.
+Proof. intros s H. unfold stepok, vmono. auto 8. Qed.
+
+Lemma stepok_trans : forall a b c, stepok a b -> stepok b c -> stepok a c.
+Proof.
+  intros a b c (A0 & A1 & A2 & A3 & A5) (B0 & B1 & B2 & B3 & B5).
+  unfold stepok, vmono in *. repeat split; try congruence; try apply B0. auto.
+Qed.
 
 Lemma valid_new : forall S o S' k e0 keyed, apply_op S o = SOk S' -> op_alloc o = Some (k, e0, keyed) ->
   valid_id S' k (next_id S k) = true.
@@ -125,7 +133,7 @@ Proof. intros S c [] i; reflexivity. Qed.
 
 Lemma cur_is_after : forall S k id S', borrow_mut S (k, id) = SOk S' -> cur_is S' k = Some id.
 Proof.
-  intros S k id S' H. pose proof H as H0. apply borrow_mut_spec in H. destruct H as (-> & He).
+  intros S k id S' H. apply borrow_mut_spec in H. destruct H as (-> & He).
   unfold cur_is. cbn [set_cur sm_cur]. rewrite sym_kind_eqb_refl, valid_set_cur.
   assert (valid_id S k id = true) as -> by (apply (get_entry_valid S (k, id)); exact He). reflexivity.
 Qed.
@@ -146,18 +154,23 @@ Proof.
   destruct k; cbn [scopes_valid first_multiclass] in *; try tauto. injection Hf as <-. tauto.
 Qed.
 
-(** emit o1 then o2, where o2 is allowed in every state o1 can lead to *)
-Lemma tinv_emit2 : forall o1 o2 s, tinv s -> op_ids_ok (oi_sm s) o1 = true ->
-  (forall S1, apply_op (oi_sm s) o1 = SOk S1 -> op_ids_ok S1 o2 = true) ->
-  tinv (emit o2 (emit o1 s)) /\ frame s (emit o2 (emit o1 s)) /\ oi_anon (emit o2 (emit o1 s)) = oi_anon s /\
-  exists S1, apply_op (oi_sm s) o1 = SOk S1 /\ apply_op S1 o2 = SOk (oi_sm (emit o2 (emit o1 s))).
+(** a successful emit is a step *)
+Lemma step_emit : forall o s, tinv s -> op_ids_ok (oi_sm s) o = true ->
+  stepok s (emit o s) /\ apply_op (oi_sm s) o = SOk (oi_sm (emit o s)).
 Proof.
-  intros o1 o2 s Ht H1 H2. destruct (tinv_emit o1 s Ht H1) as (T1 & Ea1 & A1 & A2 & A3 & A4).
-  destruct (tinv_emit o2 _ T1 (H2 _ Ea1)) as (T2 & Ea2 & B1 & B2 & B3 & B4).
-  split; [exact T2|]. split; [repeat split; congruence|]. split; [congruence|eauto].
+  intros o s Ht Hok. destruct (tinv_emit o s Ht Hok) as (T & Ea & A1 & A2 & A3 & A4).
+  split; [|exact Ea]. unfold stepok, vmono. repeat split; auto; try apply T. intros k i. eapply valid_mono_op; eauto.
 Qed.
 
-(** `x_mut(id)` then an op on the borrowed entry *)
+(** emit o1 then o2, where o2 is allowed in the state o1 leads to *)
+Lemma step_emit2 : forall o1 o2 s, tinv s -> op_ids_ok (oi_sm s) o1 = true ->
+  (forall S1, apply_op (oi_sm s) o1 = SOk S1 -> op_ids_ok S1 o2 = true) ->
+  stepok s (emit o2 (emit o1 s)).
+Proof.
+  intros o1 o2 s Ht H1 H2. destruct (step_emit o1 s Ht H1) as (P1 & Ea1).
+  destruct (step_emit o2 _ (proj1 P1) (H2 _ Ea1)) as (P2 & _). eapply stepok_trans; eauto.
+Qed.
+
 Lemma ok_after_record_mut : forall S rid S1 o2,
   apply_op S (OpRecordMut rid) = SOk S1 ->
   (match o2 with
@@ -171,64 +184,62 @@ Proof.
   destruct o2; try contradiction; cbn [op_ids_ok]; rewrite Hc; eapply valid_mono_op; eauto.
 Qed.
 
+Lemma ok_after_other_mut : forall S S1 o1 o2,
+  apply_op S o1 = SOk S1 ->
+  (match o1, o2 with
+   | OpDefsetMut _, OpDefsetAddDef id => valid_id S KRecord id = true
+   | OpMulticlassMut _, OpMcAddTemplateArg _ id => valid_id S KTemplateArg id = true
+   | _, _ => False
+   end) -> op_ids_ok S1 o2 = true.
+Proof.
+  intros S S1 o1 o2 H Hv. pose proof H as H0.
+  destruct o1; try contradiction; destruct o2; try contradiction; cbn [apply_op] in H;
+    pose proof (cur_is_after _ _ _ _ H) as Hc; cbn [op_ids_ok]; rewrite Hc; eapply valid_mono_op; eauto.
+Qed.
+
 (** ---- the steps inside a record ---- *)
 Lemma tot_targ : forall a s, tinv s ->
   (exists r, first_record (oi_scopes s) = Some r) \/ (exists m, first_multiclass (oi_scopes s) = Some m) ->
-  tinv (index_targ a s) /\ frame s (index_targ a s) /\ oi_anon (index_targ a s) = oi_anon s.
+  stepok s (index_targ a s).
 Proof.
-  intros [t i d] s Ht Hsc. unfold index_targ. destruct (ty_string (oi_sm s) t) as [typ|]; [|auto using frame_refl].
+  intros [t i d] s Ht Hsc. unfold index_targ. destruct (ty_string (oi_sm s) t) as [typ|]; [|now apply stepok_refl].
   set (tid := next_id (oi_sm s) KTemplateArg).
   set (o1 := OpAddTemplateArg (i_name i) typ (loc_of s (i_rng i)) tid).
   assert (op_ids_ok (oi_sm s) o1 = true) as Hok1 by (cbn; apply N.eqb_refl).
-  destruct (tinv_emit o1 s Ht Hok1) as (T1 & Ea1 & A1 & A2 & A3 & A4).
+  destruct (step_emit o1 s Ht Hok1) as (P1 & Ea1). pose proof P1 as (T1 & A1 & _).
   pose proof (valid_new _ _ _ _ _ _ Ea1 eq_refl) as Hvt. fold tid in Hvt.
-  rewrite A1. destruct T1 as (B1 & Hsm1 & Hsc1). rewrite A1 in Hsc1.
+  rewrite A1. pose proof T1 as (_ & _ & Hsc1). rewrite A1 in Hsc1.
   destruct (first_record (oi_scopes s)) as [rid|] eqn:Fr.
   - pose proof (first_record_valid _ _ _ Hsc1 Fr) as Hvr.
-    destruct (tinv_emit2 (OpRecordMut rid) (OpRecAddTemplateArg (i_name i) tid) (emit o1 s)) as (T2 & F2 & An2 & _).
-    + split; [exact B1|]. split; [exact Hsm1|]. now rewrite A1.
-    + exact Hvr.
-    + intros S1 HS1. eapply ok_after_record_mut; [exact HS1|exact Hvt].
-    + split; [exact T2|]. split; [|congruence]. eapply frame_trans; [|exact F2]. repeat split; assumption.
+    eapply stepok_trans; [exact P1|]. apply step_emit2; [exact T1|exact Hvr|].
+    intros S1 HS1. eapply ok_after_record_mut; [exact HS1|exact Hvt].
   - destruct Hsc as [(r & Hr)|(m & Hm)]; [discriminate|]. rewrite Hm.
     pose proof (first_multiclass_valid _ _ _ Hsc1 Hm) as Hvm.
-    destruct (tinv_emit2 (OpMulticlassMut m) (OpMcAddTemplateArg (i_name i) tid) (emit o1 s)) as (T2 & F2 & An2 & _).
-    + split; [exact B1|]. split; [exact Hsm1|]. now rewrite A1.
-    + exact Hvm.
-    + intros S1 HS1. pose proof HS1 as H0. cbn [apply_op] in HS1. pose proof (cur_is_after _ _ _ _ HS1) as Hc.
-      cbn [op_ids_ok]. rewrite Hc. eapply valid_mono_op; eauto.
-    + split; [exact T2|]. split; [|congruence]. eapply frame_trans; [|exact F2]. repeat split; assumption.
+    eapply stepok_trans; [exact P1|]. apply step_emit2; [exact T1|exact Hvm|].
+    intros S1 HS1. eapply (ok_after_other_mut _ _ (OpMulticlassMut m)); [exact HS1|exact Hvt].
 Qed.
 
-Lemma tot_parent : forall rid c s, tinv s -> valid_id (oi_sm s) KRecord rid = true ->
-  tinv (index_parent rid c s) /\ frame s (index_parent rid c s) /\ oi_anon (index_parent rid c s) = oi_anon s.
+Lemma tot_parent : forall rid c s, tinv s -> valid_id (oi_sm s) KRecord rid = true -> stepok s (index_parent rid c s).
 Proof.
   intros rid [i a r] s Ht Hvr. unfold index_parent.
-  destruct (find_class (oi_sm s) (i_name i)) as [cid|] eqn:Fc; [|auto using frame_refl].
-  destruct (cid =? rid); [auto using frame_refl|].
+  destruct (find_class (oi_sm s) (i_name i)) as [cid|] eqn:Fc; [|now apply stepok_refl].
+  destruct (cid =? rid); [now apply stepok_refl|].
   assert (valid_id (oi_sm s) KRecord cid = true) as Hvc.
   { destruct Ht as (_ & (_ & HC & _) & _). eapply HC. exact Fc. }
-  destruct (tinv_emit2 (OpRecordMut rid) (OpRecAddParent cid) s Ht Hvr) as (T2 & F2 & An2 & _).
-  - intros S1 HS1. eapply ok_after_record_mut; [exact HS1|exact Hvc].
-  - auto.
+  apply step_emit2; [exact Ht|exact Hvr|]. intros S1 HS1. eapply ok_after_record_mut; [exact HS1|exact Hvc].
 Qed.
 
-(** a field registration: add_record_field(fid = next), record_mut(rid), record.add_record_field(fid) *)
 Lemma tot_field : forall s rid n typ loc, tinv s -> valid_id (oi_sm s) KRecord rid = true ->
   let fid := next_id (oi_sm s) KRecordField in
-  let s' := emit (OpRecAddField n fid) (emit (OpRecordMut rid) (emit (OpAddRecordField n typ loc rid fid) s)) in
-  tinv s' /\ frame s s' /\ oi_anon s' = oi_anon s /\ valid_id (oi_sm s') KRecord rid = true.
+  stepok s (emit (OpRecAddField n fid) (emit (OpRecordMut rid) (emit (OpAddRecordField n typ loc rid fid) s))).
 Proof.
-  intros s rid n typ loc Ht Hvr fid s'.
+  intros s rid n typ loc Ht Hvr fid.
   set (o1 := OpAddRecordField n typ loc rid fid).
   assert (op_ids_ok (oi_sm s) o1 = true) as Hok1 by (cbn; rewrite N.eqb_refl, Hvr; reflexivity).
-  destruct (tinv_emit o1 s Ht Hok1) as (T1 & Ea1 & A1 & A2 & A3 & A4).
+  destruct (step_emit o1 s Ht Hok1) as (P1 & Ea1). pose proof P1 as (T1 & _ & _ & _ & V1).
   pose proof (valid_new _ _ _ _ _ _ Ea1 eq_refl) as Hvf. fold fid in Hvf.
-  pose proof (valid_mono_op _ _ _ _ _ Ea1 Hvr) as Hvr1.
-  destruct (tinv_emit2 (OpRecordMut rid) (OpRecAddField n fid) (emit o1 s) T1 Hvr1) as (T2 & F2 & An2 & (S1 & E1 & E2)).
-  - intros S1 HS1. eapply ok_after_record_mut; [exact HS1|exact Hvf].
-  - split; [exact T2|]. split; [eapply frame_trans; [|exact F2]; repeat split; assumption|]. split; [unfold s'; congruence|].
-    eapply valid_mono_op; [exact E2|]. eapply valid_mono_op; [exact E1|exact Hvr1].
+  eapply stepok_trans; [exact P1|]. apply step_emit2; [exact T1|exact (V1 _ _ Hvr)|].
+  intros S1 HS1. eapply ok_after_record_mut; [exact HS1|exact Hvf].
 Qed.
 
 Lemma find_field_in_some : forall fuel S r n vis f vis', find_field_in fuel S r n vis = SOk (Some f, vis') ->
@@ -246,40 +257,300 @@ Proof.
     + now apply IHp with v1.
 Qed.
 
-Lemma tot_item : forall rid it s, tinv s -> valid_id (oi_sm s) KRecord rid = true ->
-  tinv (index_item rid it s) /\ frame s (index_item rid it s) /\ oi_anon (index_item rid it s) = oi_anon s /\
-  valid_id (oi_sm (index_item rid it s)) KRecord rid = true.
+Lemma tot_item : forall rid it s, tinv s -> valid_id (oi_sm s) KRecord rid = true -> stepok s (index_item rid it s).
 Proof.
-  intros rid it s Ht Hvr. destruct it; cbn [index_item]; try (auto using frame_refl).
-  - destruct (ty_string (oi_sm s) t) as [typ|]; [|auto using frame_refl]. now apply tot_field.
+  intros rid it s Ht Hvr. destruct it; cbn [index_item]; try (now apply stepok_refl).
+  - destruct (ty_string (oi_sm s) t) as [typ|]; [|now apply stepok_refl]. now apply tot_field.
   - destruct (get_entry_valid (oi_sm s) (KRecord, rid)) as [_ Hex]. destruct (Hex Hvr) as (e & He).
-    destruct Ht as (B & (HI & HC & HF) & Hsc).
+    pose proof Ht as (B & (HI & HC & HF) & Hsc).
     destruct (find_field_ok (oi_sm s) HI rid (i_name i) e He) as (o & Ho). rewrite Ho.
-    destruct o as [f0|]; [|split; [split; auto|auto using frame_refl]].
+    destruct o as [f0|]; [|now apply stepok_refl].
     unfold find_field in Ho. apply sbind_ok in Ho. destruct Ho as ([r0 v0] & Hf & Ho). cbn in Ho. injection Ho as ->.
     destruct (find_field_in_some _ _ _ _ _ _ _ Hf) as (r' & e' & He' & Ag).
     pose proof (HF _ _ _ _ He' Ag) as Hvf.
     destruct (get_entry_valid (oi_sm s) (KRecordField, f0)) as [_ Hex2]. destruct (Hex2 Hvf) as (fe & Hfe). rewrite Hfe.
-    apply tot_field; [split; [exact B|split; [split; auto|exact Hsc]]|exact Hvr].
+    now apply tot_field.
+Qed.
+
+Lemma tot_fold : forall (A : Type) (f : A -> ostate -> ostate) (P : ostate -> Prop) (l : list A),
+  (forall a s, tinv s -> P s -> stepok s (f a s)) ->
+  (forall s s', stepok s s' -> P s -> P s') ->
+  forall s, tinv s -> P s -> stepok s (fold_left (fun st a => f a st) l s).
+Proof.
+  intros A f P l Hf HP. induction l as [|a l IH]; intros s Ht Hp; cbn [fold_left]; [now apply stepok_refl|].
+  pose proof (Hf a s Ht Hp) as S1. eapply stepok_trans; [exact S1|]. apply IH; [apply S1|eapply HP; eauto].
 Qed.
 
 Lemma tot_record_body : forall rid ps b s, tinv s -> valid_id (oi_sm s) KRecord rid = true ->
-  tinv (index_record_body rid ps b s) /\ frame s (index_record_body rid ps b s) /\
-  oi_anon (index_record_body rid ps b s) = oi_anon s.
+  stepok s (index_record_body rid ps b s).
 Proof.
   intros rid ps b s Ht Hvr. unfold index_record_body.
-  assert (forall ps s, tinv s -> valid_id (oi_sm s) KRecord rid = true ->
-            let s' := fold_left (fun st c => index_parent rid c st) ps s in
-            tinv s' /\ frame s s' /\ oi_anon s' = oi_anon s /\ valid_id (oi_sm s') KRecord rid = true) as HP.
-  { induction ps0 as [|p ps0 IH]; intros s0 Ht0 Hv0; cbn [fold_left]; [auto using frame_refl|].
-    destruct (tot_parent rid p s0 Ht0 Hv0) as (T1 & F1 & A1).
-    assert (valid_id (oi_sm (index_parent rid p s0)) KRecord rid = true) as Hv1.
-    { destruct p as [i a r]. unfold index_parent. destruct (find_class (oi_sm s0) (i_name i)) as [cid|]; [|exact Hv0].
-      destruct (cid =? rid); [exact Hv0|].
-      destruct (tinv_emit2 (OpRecordMut rid) (OpRecAddParent cid) s0 Ht0 Hv0) as (_ & _ & _ & (S1 & E1 & E2)).
-      - intros S1 HS1. eapply ok_after_record_mut; [exact HS1|].
-        destruct Ht0 as (_ & (_ & HC & _) & _). destruct (find_class (oi_sm s0) (i_name i)) eqn:Q.
-        all: admit. }
-    admit. }
-  admit.
-Admitted.
+  set (P := fun st : ostate => valid_id (oi_sm st) KRecord rid = true).
+  assert (forall s s', stepok s s' -> P s -> P s') as HP by (intros s0 s1 (_ & _ & _ & _ & V) H0; exact (V _ _ H0)).
+  pose proof (tot_fold _ (fun c st => index_parent rid c st) P ps (fun a s0 T0 P0 => tot_parent rid a s0 T0 P0) HP s Ht Hvr) as S1.
+  eapply stepok_trans; [exact S1|].
+  apply (tot_fold _ (fun it st => index_item rid it st) P b (fun a s0 T0 P0 => tot_item rid a s0 T0 P0) HP); [apply S1|].
+  eapply HP; eauto.
+Qed.
+
+(** ---- fuel: a potential that bounds the recursion depth ---- *)
+Definition fsize (body : list stmt) : nat := S (sum_sizes stmt_size body).
+
+Fixpoint pot_from (k : nat) (files : list (list stmt)) (I : list N) : nat :=
+  match files with
+  | [] => O
+  | b :: r => ((if mem (N.of_nat k) I then O else fsize b) + pot_from (S k) r I)%nat
+  end.
+Definition pot (files : list (list stmt)) (I : list N) : nat := pot_from O files I.
+
+Lemma pot_mono : forall files k I I', incl I I' -> (pot_from k files I' <= pot_from k files I)%nat.
+Proof.
+  induction files as [|b r IH]; intros k I I' Hi; cbn [pot_from]; [lia|].
+  specialize (IH (S k) I I' Hi). destruct (mem (N.of_nat k) I) eqn:M.
+  - rewrite (mem_incl _ _ _ Hi M). lia.
+  - destruct (mem (N.of_nat k) I'); lia.
+Qed.
+
+Lemma pot_enter : forall files k I f body, nth_error files f = Some body -> mem (N.of_nat (k + f)) I = false ->
+  (pot_from k files (N.of_nat (k + f) :: I) + fsize body <= pot_from k files I)%nat.
+Proof.
+  induction files as [|b r IH]; intros k I f body Hn Hm; [destruct f; discriminate|].
+  cbn [pot_from]. destruct f as [|f].
+  - cbn in Hn. injection Hn as ->. rewrite Nat.add_0_r in *. rewrite Hm.
+    assert (mem (N.of_nat k) (N.of_nat k :: I) = true) as -> by (apply mem_In; now left).
+    pose proof (pot_mono r (S k) I (N.of_nat k :: I) ltac:(intros z Hz; now right)). lia.
+  - cbn in Hn. replace (k + S f)%nat with (S k + f)%nat in * by lia.
+    specialize (IH (S k) I f body Hn Hm).
+    assert (mem (N.of_nat k) (N.of_nat (S k + f) :: I) = mem (N.of_nat k) I) as ->.
+    { unfold mem. cbn [existsb]. assert (N.of_nat k =? N.of_nat (S k + f) = false) as -> by (apply N.eqb_neq; lia). reflexivity. }
+    destruct (mem (N.of_nat k) I); lia.
+Qed.
+
+Lemma stmts_fix_eq : forall b,
+  (fix go (l : list stmt) : nat := match l with [] => 0%nat | x :: r => (stmt_size x + go r)%nat end) b = sum_sizes stmt_size b.
+Proof. induction b as [|x r IH]; [reflexivity|]. unfold sum_sizes in *. cbn [fold_right]. now rewrite <- IH. Qed.
+
+Lemma in_sum_sizes : forall (b : list stmt) y, In y b -> (stmt_size y <= sum_sizes stmt_size b)%nat.
+Proof.
+  induction b as [|x r IH]; intros y Hy; [destruct Hy|]. unfold sum_sizes in *. cbn [fold_right].
+  destruct Hy as [<-|H]; [lia|]. specialize (IH y H). lia.
+Qed.
+
+(** ---- statements ---- *)
+Definition stepI (s s' : ostate) : Prop :=
+  tinv s' /\ oi_scopes s' = oi_scopes s /\ oi_trace s' = oi_trace s /\ incl (oi_indexed s) (oi_indexed s') /\ vmono s s'.
+
+Lemma stepI_of_ok : forall s s', stepok s s' -> stepI s s'.
+Proof.
+  intros s s' (A0 & A1 & A2 & A3 & A5). unfold stepI. repeat split; auto; try apply A0. rewrite A3. apply incl_refl.
+Qed.
+Lemma stepI_refl : forall s, tinv s -> stepI s s.
+Proof. intros. now apply stepI_of_ok, stepok_refl. Qed.
+Lemma stepI_trans : forall a b c, stepI a b -> stepI b c -> stepI a c.
+Proof.
+  intros a b c (A0 & A1 & A2 & A3 & A5) (B0 & B1 & B2 & B3 & B5). unfold stepI, vmono in *.
+  split; [exact B0|]. split; [congruence|]. split; [congruence|]. split; [eapply incl_tran; eauto|auto].
+Qed.
+
+Lemma tinv_same_sm : forall s s', oi_bad s' = oi_bad s -> oi_sm s' = oi_sm s -> oi_scopes s' = oi_scopes s -> tinv s -> tinv s'.
+Proof. intros s s' Hb Hs Hc (B & S0 & C). unfold tinv. rewrite Hb, Hs, Hc. auto. Qed.
+
+Lemma tot_list : forall files n (b : list stmt) M,
+  (forall y s, tinv s -> (stmt_size y + pot files (oi_indexed s) <= n)%nat -> stepI s (index_stmt files n y s)) ->
+  (forall y, In y b -> (stmt_size y <= M)%nat) ->
+  forall s, tinv s -> (M + pot files (oi_indexed s) <= n)%nat ->
+  stepI s (fold_left (fun a y => index_stmt files n y a) b s).
+Proof.
+  intros files n b M Hy. induction b as [|y b IH]; intros HM s Ht Hf; cbn [fold_left]; [now apply stepI_refl|].
+  assert (stepI s (index_stmt files n y s)) as S1.
+  { apply Hy; [exact Ht|]. specialize (HM y ltac:(now left)). lia. }
+  eapply stepI_trans; [exact S1|]. destruct S1 as (T1 & _ & _ & I1 & _).
+  apply IH; [intros z Hz; apply HM; now right|exact T1|].
+  pose proof (pot_mono files O _ _ I1). unfold pot in *. lia.
+Qed.
+
+(** push a scope whose id (if any) is allocated, run, pop *)
+Lemma tot_wrap : forall k (F : ostate -> ostate) s, tinv s ->
+  (match k with
+   | ORecord r => valid_id (oi_sm s) KRecord r = true
+   | ODefset d => valid_id (oi_sm s) KDefset d = true
+   | OMulticlass m => valid_id (oi_sm s) KMulticlass m = true
+   | _ => True
+   end) ->
+  (forall sP, tinv sP -> oi_scopes sP = k :: oi_scopes s -> oi_indexed sP = oi_indexed s -> oi_trace sP = oi_trace s ->
+              oi_sm sP = oi_sm s -> stepI sP (F sP)) ->
+  stepI s (pop_scope (F (push_scope k s))).
+Proof.
+  intros k F s (B & Hsm & Hsc) Hk HF.
+  assert (tinv (push_scope k s)) as TP.
+  { split; [exact B|]. split; [exact Hsm|]. cbn [push_scope set_scopes oi_scopes oi_sm]. destruct k; cbn [scopes_valid]; auto. }
+  destruct (HF (push_scope k s) TP eq_refl eq_refl eq_refl eq_refl) as ((B1 & Hsm1 & Hsc1) & Sc & Tr & Ix & V).
+  cbn [push_scope set_scopes oi_scopes] in Sc.
+  unfold stepI. split.
+  - split; [exact B1|]. split; [exact Hsm1|]. cbn [pop_scope set_scopes oi_scopes oi_sm]. rewrite Sc in *. cbn [tl].
+    destruct k; cbn [scopes_valid] in Hsc1; tauto.
+  - split; [cbn [pop_scope set_scopes oi_scopes]; now rewrite Sc|]. split; [exact Tr|]. split; [exact Ix|exact V].
+Qed.
+
+Theorem tot_stmt : forall files fuel x s, tinv s ->
+  (stmt_size x + pot files (oi_indexed s) <= fuel)%nat -> stepI s (index_stmt files fuel x s).
+Proof.
+  intros files. induction fuel as [|n IH]; intros x s Ht Hf.
+  - destruct x; cbn [stmt_size] in Hf; lia.
+  - pose proof (fun b M => tot_list files n b M IH) as HL.
+    destruct x; cbn [index_stmt].
+    + (* include *)
+      destruct target as [f|]; [|now apply stepI_refl].
+      destruct (existsb (N.eqb f) (oi_indexed s)) eqn:Ex; [now apply stepI_refl|].
+      destruct (nth_error files (N.to_nat f)) as [body|] eqn:Nf.
+      * set (s1 := set_files s (f :: oi_trace s) (f :: oi_indexed s)).
+        assert (tinv s1) as T1 by (eapply tinv_same_sm; [| | |exact Ht]; reflexivity).
+        assert (stepI s1 (fold_left (fun a y => index_stmt files n y a) body s1)) as S1.
+        { apply (HL body (sum_sizes stmt_size body)); [intros y Hy; now apply in_sum_sizes|exact T1|].
+          cbn [s1 set_files oi_indexed]. cbn [stmt_size] in Hf.
+          pose proof (pot_enter files O (oi_indexed s) (N.to_nat f) body Nf) as Hp. cbn [Nat.add] in Hp.
+          rewrite N2Nat.id in Hp. specialize (Hp Ex). unfold pot, fsize in *. lia. }
+        destruct S1 as (T2 & Sc & Tr & Ix & V). unfold stepI.
+        split; [eapply tinv_same_sm; [| | |exact T2]; reflexivity|].
+        split; [exact Sc|]. split; [cbn [set_files oi_trace]; rewrite Tr; reflexivity|].
+        split; [intros z Hz; apply Ix; now right|exact V].
+      * unfold stepI. split; [eapply tinv_same_sm; [| | |exact Ht]; reflexivity|].
+        split; [reflexivity|]. split; [reflexivity|]. split; [intros z Hz; now right|intros k i H; exact H].
+    + now apply stepI_refl.
+    + (* class *)
+      set (rid := next_id (oi_sm s) KRecord).
+      set (o := OpAddRecord (i_name i) RKClass (loc_of s (i_rng i)) true rid).
+      destruct (step_emit o s Ht ltac:(cbn; apply N.eqb_refl)) as (P1 & Ea1). pose proof P1 as (T1 & _).
+      pose proof (valid_new _ _ _ _ _ _ Ea1 eq_refl) as Hvr. fold rid in Hvr.
+      eapply stepI_trans; [apply stepI_of_ok; exact P1|].
+      apply (tot_wrap (ORecord rid)
+               (fun st => index_record_body rid parents body
+                            (match targs with Some l => fold_left (fun a t => index_targ t a) l st | None => st end)));
+        [exact T1|exact Hvr|].
+      intros sP TP ScP _ _ SmP. apply stepI_of_ok.
+      assert (stepok sP (match targs with Some l => fold_left (fun a t => index_targ t a) l sP | None => sP end)) as ST.
+      { destruct targs as [l|]; [|now apply stepok_refl].
+        apply (tot_fold _ (fun t a => index_targ t a) (fun st => oi_scopes st = oi_scopes sP) l); auto.
+        - intros a st Tst Pst. apply tot_targ; [exact Tst|]. left. rewrite Pst, ScP. cbn. eauto.
+        - intros st st' (_ & A1 & _) Pst. congruence. }
+      eapply stepok_trans; [exact ST|]. apply tot_record_body; [apply ST|].
+      destruct ST as (_ & _ & _ & _ & V). apply V. rewrite SmP. exact Hvr.
+    + (* def *)
+      set (rid := next_id (oi_sm s) KRecord).
+      assert (forall s1, stepok s s1 -> valid_id (oi_sm s1) KRecord rid = true ->
+                stepI s (pop_scope (index_record_body rid parents body (push_scope (ORecord rid)
+                   (match first_defset (oi_scopes s) with
+                    | Some d => emit (OpDefsetAddDef rid) (emit (OpDefsetMut d) s1)
+                    | None => s1 end))))) as Hrest.
+      { intros s1 P1 Hvr. pose proof P1 as (T1 & Sc1 & _).
+        assert (stepok s1 (match first_defset (oi_scopes s) with
+                           | Some d => emit (OpDefsetAddDef rid) (emit (OpDefsetMut d) s1)
+                           | None => s1 end)) as PD.
+        { destruct (first_defset (oi_scopes s)) as [d|] eqn:Fd; [|now apply stepok_refl].
+          apply step_emit2; [exact T1| |].
+          - cbn. destruct T1 as (_ & _ & Hsc). rewrite Sc1 in Hsc. eapply first_defset_valid; eauto.
+          - intros S1 HS1. eapply (ok_after_other_mut _ _ (OpDefsetMut d)); [exact HS1|exact Hvr]. }
+        eapply stepI_trans; [apply stepI_of_ok; eapply stepok_trans; [exact P1|exact PD]|].
+        apply (tot_wrap (ORecord rid) (fun st => index_record_body rid parents body st)); [apply PD| |].
+        - destruct PD as (_ & _ & _ & _ & V). now apply V.
+        - intros sP TP _ _ _ SmP. apply stepI_of_ok, tot_record_body; [exact TP|]. rewrite SmP.
+          destruct PD as (_ & _ & _ & _ & V). now apply V. }
+      destruct nm as [vv|].
+      * destruct (value_first_ident vv) as [i|]; [|now apply stepI_refl].
+        match goal with |- context [emit ?oo s] => set (o := oo) end.
+        destruct (step_emit o s Ht ltac:(cbn; apply N.eqb_refl)) as (P1 & Ea1).
+        apply (Hrest (emit o s) P1). exact (valid_new _ _ _ _ _ _ Ea1 eq_refl).
+      * set (s0 := set_anon s (oi_anon s + 1)).
+        assert (tinv s0) as T0 by (eapply tinv_same_sm; [| | |exact Ht]; reflexivity).
+        set (o := OpAddAnonymousDef (anonymous_name (oi_anon s)) (loc_of s r) rid).
+        destruct (step_emit o s0 T0 ltac:(cbn; apply N.eqb_refl)) as (P1 & Ea1).
+        assert (stepok s (emit o s0)) as P1' by exact P1.
+        apply (Hrest (emit o s0) P1'). exact (valid_new _ _ _ _ _ _ Ea1 eq_refl).
+    + (* defm *)
+      destruct nm; [now apply stepI_refl|]. apply stepI_of_ok.
+      unfold stepok, vmono. split; [eapply tinv_same_sm; [| | |exact Ht]; reflexivity|]. auto.
+    + (* defset *)
+      destruct (ty_string (oi_sm s) t) as [typ|]; [|now apply stepI_refl].
+      set (did := next_id (oi_sm s) KDefset).
+      set (o := OpAddDefset (i_name i) typ (loc_of s (i_rng i)) did).
+      destruct (step_emit o s Ht ltac:(cbn; apply N.eqb_refl)) as (P1 & Ea1). pose proof P1 as (T1 & _ & _ & Ix1 & _).
+      pose proof (valid_new _ _ _ _ _ _ Ea1 eq_refl) as Hvd. fold did in Hvd.
+      eapply stepI_trans; [apply stepI_of_ok; exact P1|].
+      apply (tot_wrap (ODefset did) (fun st => fold_left (fun a y => index_stmt files n y a) body st)); [exact T1|exact Hvd|].
+      intros sP TP _ IxP _ _. apply (HL body (sum_sizes stmt_size body)); [intros y Hy; now apply in_sum_sizes|exact TP|].
+      rewrite IxP, Ix1. cbn [stmt_size] in Hf. rewrite stmts_fix_eq in Hf. lia.
+    + now apply stepI_refl.
+    + now apply stepI_refl.
+    + (* foreach *)
+      apply (tot_wrap OBlock (fun st => fold_left (fun a y => index_stmt files n y a) body st)); [exact Ht|exact I|].
+      intros sP TP _ IxP _ _. apply (HL body (sum_sizes stmt_size body)); [intros y Hy; now apply in_sum_sizes|exact TP|].
+      rewrite IxP. cbn [stmt_size] in Hf. rewrite stmts_fix_eq in Hf. lia.
+    + (* if *)
+      assert ((sum_sizes stmt_size th + pot files (oi_indexed s) <= n)%nat /\
+              match el with Some e => (sum_sizes stmt_size e + pot files (oi_indexed s) <= n)%nat | None => True end) as (Hth & Hel).
+      { destruct el as [e|]; cbn [stmt_size] in Hf; rewrite (stmts_fix_eq th) in Hf.
+        - rewrite (stmts_fix_eq e) in Hf. split; lia.
+        - split; [lia|exact I]. }
+      assert (stepI s (pop_scope (fold_left (fun a y => index_stmt files n y a) th (push_scope OBlock s)))) as S1.
+      { apply (tot_wrap OBlock (fun st => fold_left (fun a y => index_stmt files n y a) th st)); [exact Ht|exact I|].
+        intros sP TP _ IxP _ _. apply (HL th (sum_sizes stmt_size th)); [intros y Hy; now apply in_sum_sizes|exact TP|].
+        rewrite IxP. exact Hth. }
+      destruct el as [e|]; [|exact S1]. eapply stepI_trans; [exact S1|]. destruct S1 as (T1 & _ & _ & I1 & _).
+      apply (tot_wrap OBlock (fun st => fold_left (fun a y => index_stmt files n y a) e st)); [exact T1|exact I|].
+      intros sP TP _ IxP _ _. apply (HL e (sum_sizes stmt_size e)); [intros y Hy; now apply in_sum_sizes|exact TP|].
+      rewrite IxP. pose proof (pot_mono files O _ _ I1). unfold pot in *. lia.
+    + (* let *)
+      apply (tot_wrap OBlock (fun st => fold_left (fun a y => index_stmt files n y a) body st)); [exact Ht|exact I|].
+      intros sP TP _ IxP _ _. apply (HL body (sum_sizes stmt_size body)); [intros y Hy; now apply in_sum_sizes|exact TP|].
+      rewrite IxP. cbn [stmt_size] in Hf. rewrite stmts_fix_eq in Hf. lia.
+    + (* multiclass *)
+      set (mid := next_id (oi_sm s) KMulticlass).
+      set (o := OpAddMulticlass (i_name i) (loc_of s (i_rng i)) mid).
+      destruct (step_emit o s Ht ltac:(cbn; apply N.eqb_refl)) as (P1 & Ea1). pose proof P1 as (T1 & _ & _ & Ix1 & _).
+      pose proof (valid_new _ _ _ _ _ _ Ea1 eq_refl) as Hvm. fold mid in Hvm.
+      eapply stepI_trans; [apply stepI_of_ok; exact P1|].
+      apply (tot_wrap (OMulticlass mid)
+               (fun st => fold_left (fun a y => index_stmt files n y a) body
+                            (match targs with Some l => fold_left (fun a t => index_targ t a) l st | None => st end)));
+        [exact T1|exact Hvm|].
+      intros sP TP ScP IxP _ _.
+      assert (stepok sP (match targs with Some l => fold_left (fun a t => index_targ t a) l sP | None => sP end)) as ST.
+      { destruct targs as [l|]; [|now apply stepok_refl].
+        apply (tot_fold _ (fun t a => index_targ t a) (fun st => oi_scopes st = oi_scopes sP) l); auto.
+        - intros a st Tst Pst. apply tot_targ; [exact Tst|]. rewrite Pst, ScP. cbn [first_record first_multiclass].
+          destruct (first_record (oi_scopes (emit o s))); eauto.
+        - intros st st' (_ & A1 & _) Pst. congruence. }
+      eapply stepI_trans; [apply stepI_of_ok; exact ST|]. destruct ST as (TT & _ & _ & IxT & _).
+      apply (HL body (sum_sizes stmt_size body)); [intros y Hy; now apply in_sum_sizes|exact TT|].
+      rewrite IxT, IxP, Ix1. cbn [stmt_size] in Hf. rewrite stmts_fix_eq in Hf. lia.
+Qed.
+
+(** ---- the theorem: no workspace makes the slice panic or run out of fuel ---- *)
+Lemma pot_total : forall files k I, (pot_from k files I <= sum_sizes fsize files)%nat.
+Proof.
+  induction files as [|b r IH]; intros k I; cbn [pot_from]; unfold sum_sizes in *; cbn [fold_right]; [lia|].
+  specialize (IH (S k) I). destruct (mem (N.of_nat k) I); lia.
+Qed.
+
+Theorem oix_total : forall w, oi_bad (oix w) = false.
+Proof.
+  intros w. unfold oix. destruct (ws_files w) as [|root rest] eqn:Ef; [reflexivity|].
+  assert (tinv o0) as T0.
+  { split; [reflexivity|]. split; [|exact I]. split; [apply ids_empty|]. split.
+    - intros n id H. discriminate.
+    - intros r e n f H. unfold get_entry, nth_N in H. cbn in H. destruct (N.to_nat r); discriminate. }
+  assert (stepI o0 (fold_left (fun a y => index_stmt (root :: rest) (ws_fuel w) y a) root o0)) as S1.
+  { apply (tot_list (root :: rest) (ws_fuel w) root (sum_sizes stmt_size root));
+      [intros y s Ts Hs; now apply tot_stmt|intros y Hy; now apply in_sum_sizes|exact T0|].
+    unfold ws_fuel. rewrite Ef. unfold pot. cbn [o0 oi_indexed pot_from].
+    assert (mem (N.of_nat 0) [0] = true) as -> by reflexivity.
+    pose proof (pot_total rest 1 [0]). unfold fsize in *. unfold sum_sizes in *. cbn [fold_right]. lia. }
+  destruct S1 as ((B & _) & _). exact B.
+Qed.
+
+(** ---- consequences: the source-level theorems hold for EVERY workspace, and the AST-only visits never fail ---- *)
+Corollary visit_total : forall w, exists ev v', visit_ws w = Some (ev, v').
+Proof. intros w. destruct (oix_visit w (oix_total w)) as (ev & v' & H & _). eauto. Qed.
+
+Corollary visitc_total : forall w, exists ev c', visitc_ws w = Some (ev, c').
+Proof. intros w. destruct (oix_children w (oix_total w)) as (ev & c' & H & _). eauto. Qed.
